@@ -320,8 +320,11 @@ def segment_of(ops, k):
     return start
 
 
+OWNER = [None]   # the property whose check is running (its work directory owns every scratch file)
+
+
 def rerun_pair(bin_path, pid, lines, tag):
-    d = os.path.join(WORK, pid, "shrink")
+    d = os.path.join(WORK, OWNER[0] or pid, "shrink-" + pid)
     os.makedirs(d, exist_ok=True)
     op = os.path.join(d, tag + ".ops")
     with open(op, "w") as f:
@@ -377,9 +380,9 @@ def shrink_case(bin_path, pid, seg, kind):
     return [first] + middle + [last]
 
 
-def correspondence(pid, reg, tier, seed, bin_path):
+def correspondence(pid, reg, tier, seed, bin_path, wd=None):
     """Generates cases, runs implementation and model, compares.  Returns a result dict."""
-    wd = os.path.join(WORK, pid)
+    wd = wd or os.path.join(WORK, pid)
     os.makedirs(wd, exist_ok=True)
     ops_raw = os.path.join(wd, "ops.txt")
     # corpus (minimised past failures) first
@@ -492,6 +495,7 @@ def write_replay(pid, n, payload):
 
 def check(pid, tier, seed):
     t0 = time.time()
+    OWNER[0] = pid
     reg = load_registry(pid)
     level = reg.get("level", "proof")
     violations = []   # (line, replay)
@@ -547,7 +551,10 @@ def check(pid, tier, seed):
     # report their disagreements as violations of this property
     for q in reg.get("also_correspond", []):
         bq = build_harness(q)
-        corrs.append((q, bq, correspondence(q, load_registry(q), tier, seed, bq)))
+        # scratch files of a re-run stream live under the claiming property's work directory, so
+        # that checks of different properties can run concurrently
+        corrs.append((q, bq, correspondence(q, load_registry(q), tier, seed, bq,
+                                            wd=os.path.join(WORK, pid, "also-" + q))))
 
     # --- 2b. extra per-property steps ---------------------------------------------------------
     extra_result = None
@@ -718,6 +725,7 @@ def replay(path):
             return rc
         return 0
     proto = payload.get("protocol_property", pid)
+    OWNER[0] = pid
     bin_path = build_harness(proto)
     lake_build(["emlmodel"])
     rc, il, ml = rerun_pair(bin_path, proto, payload["ops"], "replay")
